@@ -64,10 +64,12 @@ def parseSteps : List String → Scenario → Option Scenario
   | t :: rest, acc =>
     if t = "PX" then parseSteps rest { acc with peers := acc.peers ++ [.bad "unknown-type"] }
     else if t = "PG" then parseSteps rest { acc with peers := acc.peers ++ [.bad "decode"] }
+    else if t = "A" then parseSteps rest acc   -- the application waits for the handlers (timing only)
     else
       let cs := t.toList
       let k := String.ofList (cs.take 1)
-      match parseSym (String.ofList (cs.drop 1)) with
+      -- `@N` (padding of the message body to N bytes) does not change the symbol
+      match parseSym (String.ofList ((cs.drop 1).takeWhile (· ≠ '@'))) with
       | none => none
       | some a =>
         if k = "L" then parseSteps rest { acc with locals := acc.locals ++ [a] }
